@@ -37,12 +37,12 @@ PDiscon == 22    PNoDiscon == 23  PGetInfo == 24   PAnyName == 26
 PNoAgree == 27   PBroadcast == 32 PSendPM == 40
 
 FreeConn == [ph |-> "free", pend |-> <<>>, addr |-> "", id |-> -1, login |-> "", acc |-> {}, aname |-> <<>>, name |-> <<>>,
-             icon |-> 0, admin |-> FALSE, refPM |-> FALSE, refChat |-> FALSE, auto |-> <<>>, ready |-> FALSE]
+             icon |-> 0, admin |-> FALSE, refPM |-> FALSE, refChat |-> FALSE, away |-> FALSE, auto |-> <<>>, ready |-> FALSE]
 
 Live == {c \in Conns : conn[c].ph \in {"in", "closing"}}     \* the client registry ("closing": the peer is gone, the handler has not yet removed the entry)
 Others(c) == Live \ {c}
 
-Flags(r) == (IF r.admin THEN 2 ELSE 0) + (IF r.refPM THEN 4 ELSE 0) + (IF r.refChat THEN 8 ELSE 0)
+Flags(r) == (IF r.away THEN 1 ELSE 0) + (IF r.admin THEN 2 ELSE 0) + (IF r.refPM THEN 4 ELSE 0) + (IF r.refChat THEN 8 ELSE 0)
 
 Has(c, p) == p \in conn[c].acc
 
@@ -215,6 +215,23 @@ SetInfo(s) ==
   /\ conn[c].ph = "in"
   /\ conn' = [conn EXCEPT ![c] = r]
   /\ out' = Map(LAMBDA d : Notify301(d, r), ById(Live))
+  /\ UNCHANGED <<agreement, accts, chats, bans>>
+
+(* Idle time (keepaliveHandler): after more than 300 s without a request other than keep-alives a user is marked away
+   and everybody is told.  The next request of the user - here: a user-list request - is answered as usual (the
+   reply still shows the user away), then the away flag is cleared and everybody is told again. *)
+GoneIdle(s) ==
+  LET c == s.c  r == [conn[c] EXCEPT !.away = TRUE] IN
+  /\ conn[c].ph = "in" /\ ~conn[c].away
+  /\ conn' = [conn EXCEPT ![c] = r]
+  /\ out' = Map(LAMBDA d : Notify301(d, r), ById(Live))
+  /\ UNCHANGED <<agreement, accts, chats, bans>>
+
+Wake(s) ==
+  LET c == s.c  r == [conn[c] EXCEPT !.away = FALSE] IN
+  /\ conn[c].ph = "in" /\ conn[c].away
+  /\ conn' = [conn EXCEPT ![c] = r]
+  /\ out' = << [Reply(c) EXCEPT !.users = Map(UserRec, ById(Live))] >> \o Map(LAMBDA d : Notify301(d, r), ById(Live))
   /\ UNCHANGED <<agreement, accts, chats, bans>>
 
 (* GetUserNameList (300) *)
@@ -432,6 +449,7 @@ Restart(s) ==
 (* Guard(s): the step is meaningful in the current model state (the trace specification reports a step whose
    guard fails as drift instead of stalling). *)
 InP(c) == c \in Conns /\ conn[c].ph = "in"
+Awake(c) == InP(c) /\ ~conn[c].away   \* an away user's next request is modelled by Wake only
 Guard(s) ==
   CASE s.op = "connect"   -> s.c \in Conns /\ conn[s.c].ph = "free"
     [] s.op = "login"     -> s.c \in Conns /\ conn[s.c].ph = "open"
@@ -441,13 +459,15 @@ Guard(s) ==
     [] s.op = "closeend"  -> s.c \in Conns /\ conn[s.c].ph = "closing"
     [] s.op \in {"chatstorm", "banstorm"} -> TRUE
     [] s.op = "close"     -> s.c \in Conns /\ conn[s.c].ph \in {"open", "in"}
-    [] s.op \in {"agreed", "setinfo", "userlist", "broadcast", "setuser"} -> InP(s.c)
-    [] s.op = "chat"      -> InP(s.c) /\ (s.chat = 0 \/ s.chat \in DOMAIN chats)
-    [] s.op = "invitenew" -> InP(s.c) /\ InP(s.target)
-    [] s.op = "invite"    -> InP(s.c) /\ InP(s.target) /\ s.chat \in DOMAIN chats
-    [] s.op \in {"reject", "join", "leave", "subject"} -> InP(s.c) /\ s.chat \in DOMAIN chats
-    [] s.op \in {"pm", "getinfo"} -> InP(s.c) /\ s.target \in Conns
-    [] s.op = "kick"      -> InP(s.c) /\ InP(s.target) /\ s.c # s.target
+    [] s.op \in {"agreed", "setinfo", "userlist", "broadcast", "setuser"} -> InP(s.c) /\ ~conn[s.c].away
+    [] s.op = "goneidle"  -> InP(s.c) /\ ~conn[s.c].away
+    [] s.op = "wake"      -> InP(s.c) /\ conn[s.c].away
+    [] s.op = "chat"      -> Awake(s.c) /\ (s.chat = 0 \/ s.chat \in DOMAIN chats)
+    [] s.op = "invitenew" -> Awake(s.c) /\ InP(s.target)
+    [] s.op = "invite"    -> Awake(s.c) /\ InP(s.target) /\ s.chat \in DOMAIN chats
+    [] s.op \in {"reject", "join", "leave", "subject"} -> Awake(s.c) /\ s.chat \in DOMAIN chats
+    [] s.op \in {"pm", "getinfo"} -> Awake(s.c) /\ s.target \in Conns
+    [] s.op = "kick"      -> Awake(s.c) /\ InP(s.target) /\ s.c # s.target
     [] s.op \in {"banadd", "wait", "expire", "restart", "churn", "idle"} -> TRUE
     [] s.op = "rawfail"   -> s.c \in Conns /\ conn[s.c].ph = "free" /\ ~Refused(s.addr) /\ ~(HsValid(s) /\ s.matches)
     [] OTHER -> FALSE
@@ -462,6 +482,8 @@ Apply(s) ==
     [] s.op = "agreed"    -> Agreed(s)
     [] s.op = "setinfo"   -> SetInfo(s)
     [] s.op = "userlist"  -> UserList(s)
+    [] s.op = "goneidle"  -> GoneIdle(s)
+    [] s.op = "wake"      -> Wake(s)
     [] s.op = "close"     -> Close(s)
     [] s.op = "chat"      -> ChatSend(s)
     [] s.op = "invitenew" -> InviteNew(s)
